@@ -248,38 +248,30 @@ def k1(ctx, facts, f, cfg):
         ctx.check(src == ("arg", 1), "K1.cast-of-result", "the integer spelling casts the result itself (%s)" % cfg, "the cast is applied to %s" % show_expr(src), where=f.where(bi, si), fn=f.key)
         guards = {"integral": False, "lower": False, "upper": False}
         detail = {}
-        for sb in f.reachable():
-            tt = f.blocks[sb]["term"]
-            if tt["k"] != "SwitchInt" or tt.get("dty") != "bool":
-                continue
-            e = strip_refs(f.trace(tt["discr"]))
-            if e[0] != "binop" or e[4] != "f64":
-                continue
-            op, x, y = e[1], strip_refs(e[2]), strip_refs(e[3])
-            def cval(z):
-                if z[0] == "const":
-                    return const_value(z[1])
-                if z[0] == "cast" and z[1] == "IntToFloat" and strip_refs(z[2])[0] == "const":
-                    return float(const_value(strip_refs(z[2])[1]))
-                return None
+
+        def cval(z):
+            if z[0] == "const":
+                return const_value(z[1])
+            if z[0] == "cast" and z[1] == "IntToFloat" and strip_refs(z[2])[0] == "const":
+                return float(const_value(strip_refs(z[2])[1]))
+            return None
+
+        from .core import implied_comparisons
+        for (op, x, y) in implied_comparisons(f, bi):
             if cval(x) is not None and cval(y) is None:
                 x, y = y, x
                 op = {"Lt": "Gt", "Le": "Ge", "Gt": "Lt", "Ge": "Le", "Eq": "Eq", "Ne": "Ne"}[op]
             c = cval(y)
             if c is None:
                 continue
-            for truth in (True, False):
-                if not edge_dominates(f, sb, bool_edge(f, sb, truth), bi):
-                    continue
-                eff = op if truth else {"Eq": "Ne", "Ne": "Eq", "Lt": "Ge", "Le": "Gt", "Gt": "Le", "Ge": "Lt"}[op]
-                if x[0] == "call" and x[1] and x[1]["path"].endswith("f64>::fract") and strip_refs(x[2][0]) == ("arg", 1) and eff == "Eq" and c == 0.0:
-                    guards["integral"] = True
-                if x == ("arg", 1) and eff == "Ge" and c == -9223372036854775808.0:
-                    guards["lower"] = True
-                if x == ("arg", 1) and eff == "Lt" and c == 9223372036854775808.0:
-                    guards["upper"] = True
-                if x == ("arg", 1) and eff in ("Le", "Lt", "Ge", "Gt"):
-                    detail["%s %s" % (eff, c)] = True
+            if x[0] == "call" and x[1] and x[1]["path"].endswith("f64>::fract") and strip_refs(x[2][0]) == ("arg", 1) and op == "Eq" and c == 0.0:
+                guards["integral"] = True
+            if x == ("arg", 1) and op == "Ge" and c == -9223372036854775808.0:
+                guards["lower"] = True
+            if x == ("arg", 1) and op == "Lt" and c == 9223372036854775808.0:
+                guards["upper"] = True
+            if x == ("arg", 1) and op in ("Le", "Lt", "Ge", "Gt"):
+                detail["%s %s" % (op, c)] = True
         ctx.check(guards["integral"], "K1.integrality", "the integer spelling is taken only when fract(result) == 0.0 exactly (%s)" % cfg,
                   "the float→int cast is not dominated by the exact test fract(x) == 0.0 (a tolerance would round tiny results to 0)", where=f.where(bi, si), fn=f.key, nontrivial=True)
         ctx.check(guards["lower"] and guards["upper"], "K1.range", "the integer spelling is taken only for -2^63 <= result < 2^63 (%s)" % cfg,
@@ -289,4 +281,12 @@ def k1(ctx, facts, f, cfg):
     ctx.check(len(ff) == 1 and strip_refs(f.trace(ff[0][1]["args"][0])) == ("arg", 1), "K1.from-f64", "otherwise the result itself goes through Number::from_f64 (%s)" % cfg, "%d from_f64 calls" % len(ff), where=f.where(), fn=f.key)
     errs = [(bi, t) for bi, t in f.calls() if (callee_path(t) or "") in ("std::option::Option::<T>::ok_or_else", "std::option::Option::<T>::ok_or")]
     ok = any(strip_refs(f.trace(t["args"][0]))[0] == "call" and strip_refs(f.trace(t["args"][0]))[3] == ff[0][0] for bi, t in errs) if ff else False
+    if ff and not ok:
+        # match form: the None edge of from_f64's result returns Err, the Some edge Ok(Number(payload))
+        from .core import option_guards
+        for (sw, t_some, t_none) in option_guards(f, lambda x: x[0] == "call" and x[3] == ff[0][0]):
+            only_none = (f.reachable(t_none) - f.reachable(t_some)) | {t_none}
+            with f.restricted(only_none):
+                rn = strip_refs(f.trace(0))
+            ok = ok or (rn[0] == "agg" and rn[1].get("variant") == "Err")
     ctx.check(ok, "K1.non-finite-is-error", "a non-finite result (from_f64 → None) becomes Err (%s)" % cfg, "from_f64's None is not converted into an error", where=f.where(), fn=f.key, nontrivial=True)
